@@ -162,7 +162,8 @@ def try_pass(ctx, f, cfg, P):
     if not ctx.floor(P + ".try_pass", "CircuitBreakerTrait::try_pass bodies", len(bodies), 1):
         return
     for b in bodies:
-        cls = make_classifier([("state", ["call:CircuitBreakerTrait::current_state"], []), ("state", ["call:BreakerBase::current_state"], [])])
+        cls = make_classifier([("state", ["call:CircuitBreakerTrait::current_state"], []), ("state", ["call:BreakerBase::current_state"], [])]
+                              + [(nm, ["variant:State::" + nm], []) for nm in names])
 
         def oname(t, atoms):
             n = callee_def(t).rsplit("::", 1)[-1]
@@ -175,10 +176,10 @@ def try_pass(ctx, f, cfg, P):
             return "?" if v is None else str(D.ev(v, asg)).lower()
 
         def expected(asg):
-            s = asg["disc"].get("state")
-            if s is None or s == "other" or s >= len(names):
+            # `match state { .. }` or an if-chain of `state == State::X` tests
+            nm = variant_of(asg, "state", names)
+            if nm is None:
                 return None
-            nm = names[s]
             if nm == "Closed":
                 return "true"
             if nm == "HalfOpen":
@@ -250,8 +251,18 @@ def hook_runs_for_blocked(ctx, f, cfg, P="C03"):
     if not ctx.floor(P + ".rollback", "EntryBuilder::build + SentinelEntry::exit", (1 if build else 0) + (1 if ex else 0), 2):
         return
     # SentinelEntry::exit invokes the stored handlers
+    ex = f.view(ex)
     sl = Slicer(f, ex)
-    invokes = any(("indirect" in str(t["callee"]) or callee_def(t).rsplit("::", 1)[-1] in ("call", "call_once", "call_mut")) and any_atom(set().union(*[sl.of_operand(a) for a in t["args"]] or [set()]), "field:SentinelEntry.exit_handlers")
+    # the handler list = the field of SentinelEntry that the public when_exit() pushes to (found by role, whatever it is called)
+    hfields = set()
+    we = f.one("SentinelEntry::when_exit")
+    if we is not None:
+        wsl = Slicer(f, we)
+        for _, t in we.calls():
+            if callee_def(t).rsplit("::", 1)[-1] in ("push", "push_back", "insert") and t["args"]:
+                hfields |= {a for a in wsl.of_operand(t["args"][0]) if a.startswith("field:") and "SentinelEntry." in a}
+    hfields = hfields or {"field:core::base::entry::SentinelEntry.exit_handlers"}
+    invokes = any(("indirect" in str(t["callee"]) or callee_def(t).rsplit("::", 1)[-1] in ("call", "call_once", "call_mut")) and (set().union(*[sl.of_operand(a) for a in t["args"]] or [set()]) & hfields)
                   for _, t in ex.calls())
     from . import rules_C13
     before = len(ctx.viol)
@@ -380,9 +391,18 @@ def siblings(ctx, f, cfg):
             roles.append(("min_amount", ["field:%s.%s" % (tname, min_f)], []))
         if rt_f:
             roles.append(("max_rt", ["field:%s.%s" % (tname, rt_f)], []))
-        roles.append(("rt", ["param:rt"], []))
-        roles.append(("iter", ["call:Iterator::next"], []))
-        cls = make_classifier(roles)
+        # parameters by position (an impl may name them as it likes): (self, rt, error)
+        p_rt, p_err = b.param_name(2) or "rt", b.param_name(3) or "error"
+        roles.append(("rt", ["param:" + p_rt], []))
+        roles.append(("counter", ["call:current_counter"], ["field:Counter.target", "field:Counter.total"]))
+        roles.append(("err", ["param:" + p_err], ["param:" + p_rt]))
+        base_cls = make_classifier(roles)
+
+        def cls(atoms, op=None, b=b):
+            if op is not None and discr_of_call(b, op, "Iterator::next"):
+                return "iter"
+            r = base_cls(atoms, op)
+            return r
         sl = Slicer(f, b)
 
         def oname(t, atoms):
@@ -393,6 +413,7 @@ def siblings(ctx, f, cfg):
                 return "counter.is_err"
             return n
         w = D.Walker(f, b, cls, opaque_name=oname, unroll=2)
+        w.option_calls_as_disc = True      # is_err()/is_some() and `match` on the same value give the same atom
         trans = {}
         for bb, t in b.calls():
             n = callee_def(t).rsplit("::", 1)[-1]
@@ -411,11 +432,15 @@ def siblings(ctx, f, cfg):
         slow = rt_f is not None and any(l[0] == "cmp" and {l[2], l[3]} == {"rt", "max_rt"} for p in paths for l in p["lits"] + [x[1] for x in p["lits"] if x[0] == "not"])
 
         def expected(asg, slow=slow):
-            if asg["opaque"].get("counter.is_err"):
+            if asg["opaque"].get("counter.is_err") or asg["disc"].get("counter") == 1:
                 return "-"
             if asg["disc"].get("iter") not in (0, None):
                 return None
+            if any(v for k, v in asg["opaque"].items() if k.startswith("closure-ran:fold")) :
+                return None         # one more bucket summed: same decision as with none, judged on the rows without it
             es, en = asg["opaque"].get("err.is_some"), asg["opaque"].get("err.is_none")
+            if es is None and asg["disc"].get("err") in (0, 1):
+                es = asg["disc"]["err"] == 1
             if slow:
                 r = D.rel_of(asg, "rt", "max_rt")
                 if r is None:
@@ -472,68 +497,50 @@ def feeding(ctx, f, cfg):
     chk = [b for b in f.impl_methods("RuleCheckSlot", "check") if "circuitbreaker" in b.path]
     if not ctx.floor("C03.feeding", "impl RuleCheckSlot::check in core::circuitbreaker", len(chk), 1):
         return
-    b = chk[0]
-    helpers = [f.bodies[x] for x in f.reach_bodies([b.path]) if "circuitbreaker::slot" in x and x != b.path]
-    dec = [h for h in helpers if any(callee_is(t, "CircuitBreakerTrait::try_pass") for _, t in h.calls())]
-    if ctx.floor("C03.feeding", "breaker slot helper calling try_pass", len(dec), 1):
-        h = dec[0]
-        cls = make_classifier([("iter", ["call:Iterator::next"], [])])
-        w = D.Walker(f, h, cls, opaque_name=lambda t, a: callee_def(t).rsplit("::", 1)[-1])
-        paths = w.walk(0, lambda bb, env: None)
+    # the slot's check() in its normalised view: the private helper that asks the breakers (a loop with an early return, a
+    # find(..).map(..) chain, ...) is inlined / unfolded there
+    b = f.view(f.raw(chk[0]))
+    n_tp = sum(1 for _, t in b.calls() if callee_is(t, "CircuitBreakerTrait::try_pass"))
+    if ctx.floor("C03.feeding", "try_pass call reachable inside the breaker slot's check", n_tp, 1):
+        def cls(atoms, op=None):
+            if op is not None and discr_of_call(b, op, "Iterator::next"):
+                return "iter"
+            return make_classifier([])(atoms, op)
+        w = D.Walker(f, b, cls, opaque_name=lambda t, a: callee_def(t).rsplit("::", 1)[-1])
+        blocked = {bb for bb, t, vs, c in blocked_sites(f, b)}
+        paths = w.walk(0, lambda bb, env: ("blocked",) if bb in blocked else None)
 
         def outcome(p, asg):
-            if p["outcome"][0] == "loop":
-                return "next-breaker"
-            # Some / None of the return value
-            v = None
-            for x in reversed(p["blocks"]):
-                for s in h.blocks[x]["stmts"]:
-                    if s["k"] == "assign" and s["lhs"]["l"] == 0 and not s["lhs"]["p"] and s["rv"]["k"] == "agg":
-                        v = s["rv"].get("variant")
-                if v:
-                    break
-            return "refused" if v == "Some" else "passed"
+            return "blocked" if p["outcome"][0] == "blocked" else "not-blocked-by-this-breaker"
 
         def expected(asg):
+            if asg["opaque"].get("is_empty"):
+                return "not-blocked-by-this-breaker"
             it = asg["disc"].get("iter")
             if it == 0:
-                return "passed"
-            if it != 1:
+                return "not-blocked-by-this-breaker"
+            if it not in (None, 1):
                 return None
+            if any(not v for k, v in asg["opaque"].items() if k.startswith("closure-ran:") and k.rsplit(":", 1)[-1] in ("find_map", "find", "any", "all", "position", "try_for_each")):
+                return "not-blocked-by-this-breaker"
             tp = asg["opaque"].get("try_pass")
             if tp is None:
                 return None
-            return "next-breaker" if tp else "refused"
-        n, ncon, mism = run_table(ctx, "C03.feeding/refusal", h.path, cfg, paths, outcome, expected)
-        ctx.instance("C03.feeding/refusal", h.path, {"rows": n, "constrained": ncon, "mismatches": mism[:3]}, "refused iff some breaker's try_pass is false", not mism and ncon >= 3, cfg)
+            return "not-blocked-by-this-breaker" if tp else "blocked"
+        n, ncon, mism = run_table(ctx, "C03.feeding/refusal", b.path, cfg, paths, outcome, expected)
+        ctx.instance("C03.feeding/refusal", b.path, {"rows": n, "constrained": ncon, "mismatches": mism[:3]}, "Blocked(CircuitBreaking) iff some breaker's try_pass is false", not mism and ncon >= 3, cfg)
         if mism or ncon < 3:
-            ctx.violation("C03.feeding", "C03.feeding|refusal", "the breaker slot does not refuse exactly when a breaker's try_pass fails: %s" % mism[:1], h.loc(), config=cfg)
-        a = Slicer(f, h)
-        for bb, t in h.calls():
+            ctx.violation("C03.feeding", "C03.feeding|refusal", "the breaker slot does not refuse exactly when a breaker's try_pass fails: %s" % mism[:1], b.loc(), config=cfg)
+        # the breakers asked are those of the entry's own resource
+        a = Slicer(f, b)
+        for bb, t in b.calls():
             if callee_is(t, "get_breakers_of_resource"):
-                okk = any(x.startswith("param:") for x in a.of_operand(t["args"][0]))
+                at = a.of_operand(t["args"][0])
+                okk = any_atom(at, "call:ResourceWrapper::name") and any_atom(at, "call:EntryContext::resource")
+                ctx.instance("C03.feeding/key", b.path, sorted(short(x) for x in at if x.startswith("call:core")), "breakers of ctx.resource().name()", okk, cfg)
+                if not okk:
+                    ctx.violation("C03.feeding", "C03.feeding|key", "the breaker slot does not ask the breakers of the entry's own resource", b.loc(bb), config=cfg)
     check_block_constants(ctx, f, b, "C03.feeding/report", cfg, "CircuitBreaking", None, None, "circuit breaker")
-    # gate
-    if dec:
-        cls2 = make_classifier([])
-        w2 = D.Walker(f, b, cls2, opaque_name=lambda t, a: callee_def(t).rsplit("::", 1)[-1])
-        blocked = {bb for bb, t, vs, c in blocked_sites(f, b)}
-        paths2 = w2.walk(0, lambda bb, env: ("blocked",) if bb in blocked else None)
-
-        def outcome2(p, asg):
-            return "blocked" if p["outcome"][0] == "blocked" else "not-blocked"
-
-        def expected2(asg):
-            if asg["opaque"].get("is_empty"):
-                return "not-blocked"
-            s = asg["opaque"].get("is_some")
-            if s is None:
-                return None
-            return "blocked" if s else "not-blocked"
-        n, ncon, mism = run_table(ctx, "C03.feeding/gate", b.path, cfg, paths2, outcome2, expected2)
-        ctx.instance("C03.feeding/gate", b.path, {"rows": n, "constrained": ncon, "mismatches": mism[:3]}, "Blocked(CircuitBreaking) iff a breaker refused", not mism and ncon >= 2, cfg)
-        if mism or ncon < 2:
-            ctx.violation("C03.feeding", "C03.feeding|gate", "the breaker slot does not block exactly when a breaker refuses", b.loc(), config=cfg)
     # metric stat slot
     ms = [x for x in f.impl_methods("StatSlot", "on_completed") if "circuitbreaker" in x.path]
     if ctx.floor("C03.feeding", "circuitbreaker MetricStatSlot::on_completed", len(ms), 1):
@@ -547,7 +554,8 @@ def feeding(ctx, f, cfg):
             a1, a2 = sl.of_operand(t["args"][1]), sl.of_operand(t["args"][2])
             recv = sl.of_operand(t["args"][0])
             scc = m.scc_of(bb)
-            early = [s for s, d in m.loop_exits(scc) if (m.term(d) or {}).get("k") != "unreachable" and not (m.term(s)["k"] == "switch" and "discr" in sl.of_operand(m.term(s)["op"]) and any_atom(sl.of_operand(m.term(s)["op"]), "call:Iterator::next"))]
+            early = [s for s, d in m.loop_exits(scc) if (m.term(d) or {}).get("k") != "unreachable" and not (m.term(s)["k"] == "switch" and "discr" in sl.of_operand(m.term(s)["op"]) and any_atom(sl.of_operand(m.term(s)["op"]), "call:Iterator::next"))
+                     and not m.term(s).get("hof")]
             form = {"rt_from_round_trip": any_atom(a1, "call:EntryContext::round_trip"), "err_from_ctx": any_atom(a2, "call:EntryContext::get_err"),
                     "breakers_of_own_resource": any_atom(recv, "call:get_breakers_of_resource") and any_atom(recv, "call:ResourceWrapper::name"),
                     "loop": len(scc) > 1, "early_exits": len(early)}
